@@ -18,13 +18,13 @@ def main():
     skip = "--skip-confirm" in sys.argv
     mdir, wt, pids = os.path.abspath(args[0]), os.path.abspath(args[1]), args[2:]
     out = dict(mutant=mdir, pids=pids)
-    sh(f"git -C {wt} checkout -- . && git -C {wt} clean -fdq")
+    sh(f"git -C {wt} reset -q --hard && git -C {wt} clean -fdq")
     env = dict(os.environ, PYTHONPATH=f"{wt}/src", PYTHONHASHSEED="0", MPLBACKEND="Agg")
     demo = os.path.join(mdir, "demo.py")
     if not skip:
         r = sh(["/venv/bin/python", demo], env=env, cwd=mdir)
         out["demo_clean"] = r.returncode
-    r = sh(f"git -C {wt} apply {mdir}/patch.diff")
+    r = sh(f"git -C {wt} apply {mdir}/patch.diff || git -C {wt} apply --3way {mdir}/patch.diff")
     if r.returncode:
         print(json.dumps(dict(out, error="patch does not apply: " + r.stderr[-300:]))); return 2
     try:
@@ -55,7 +55,7 @@ def main():
             out["checks"][pid] = dict(exit=r.returncode, lines=lines, replay=rp, secs=round(time.time() - t0), err=r.stderr[-300:] if r.returncode not in (0, 1) else "")
         shutil.rmtree(scratch, ignore_errors=True)
     finally:
-        sh(f"git -C {wt} checkout -- . && git -C {wt} clean -fdq")
+        sh(f"git -C {wt} reset -q --hard && git -C {wt} clean -fdq")
     print(json.dumps(out))
     return 0
 
